@@ -43,14 +43,29 @@ impl Prop for C13 {
         }
     }
 
-    fn run_case(&self, _idx: u64, mut t: Tape, detail: bool) -> (CaseOut, Tape) {
+    fn run_case(&self, idx: u64, mut t: Tape, detail: bool) -> (CaseOut, Tape) {
         let mut out = CaseOut::default();
-        let scn = gen_scenario(&mut t, SERVER_IP, 2);
-        let (mut w, script) = hostile_world(t, &scn, true, false);
-        let r = crate::gen::retries_of(&scn.call.timeout) as u64;
+        // every third case replays a damaged recorded conversation of a reference-model server
+        let (call, mut w, script) = if idx % 3 == 2 {
+            match super::c01::recorded_hostile(t, true) {
+                Some(x) => {
+                    out.probe("recorded_conversation_replayed");
+                    x
+                }
+                None => {
+                    out.skipped = Some("recorded conversation had no replies");
+                    return (out, Tape::replay(Default::default()));
+                }
+            }
+        } else {
+            let scn = gen_scenario(&mut t, SERVER_IP, 2);
+            let (w, script) = hostile_world(t, &scn, true, false);
+            (scn.call, w, script)
+        };
+        let r = crate::gen::retries_of(&call.timeout) as u64;
         w.op_budget = 2_000 + 500 * (r + 1);
-        let mut run = run_call(w, &scn.call);
-        let fam = scn.call.entry.family();
+        let mut run = run_call(w, &call);
+        let fam = call.entry.family();
         let fam_class = fam.split(':').next().unwrap_or("").to_string();
         if let Some(c) = &run.crash {
             // crashes are C01's; an abort for a huge allocation is also a C13 violation and is
@@ -76,7 +91,7 @@ impl Prop for C13 {
             }
             let sends = run.world.hist.iter().filter(|h| matches!(h, Hist::UdpSend { .. } | Hist::TcpWrite { .. })).count() as u64;
             let received = run.world.stats.udp_recvs + run.world.hist.iter().filter(|h| matches!(h, Hist::TcpRead { len, .. } if *len > 0)).count() as u64;
-            let bound = (r + 1) * k_of(&scn.call.entry) + received;
+            let bound = (r + 1) * k_of(&call.entry) + received;
             if sends > bound {
                 out.violate(Violation::new(
                     format!("{fam_class}|requests-unbounded"),
@@ -95,7 +110,7 @@ impl Prop for C13 {
         out.absorb(&run.world);
         out.distinct_key = out.log_hash;
         if detail {
-            out.sample = Some(json!({"call": describe_call(&scn.call), "script": script, "peak_live_bytes": run.alloc.peak_live, "largest_request_bytes": run.alloc.largest,
+            out.sample = Some(json!({"call": describe_call(&call), "script": script, "peak_live_bytes": run.alloc.peak_live, "largest_request_bytes": run.alloc.largest,
                 "allocations": run.alloc.count, "result": describe_result(&run.result, &run.crash)}));
             out.schedule = run.world.render_history(80);
         }
@@ -104,7 +119,7 @@ impl Prop for C13 {
     }
 
     fn rule(&self) -> String {
-        "the C01 generator (entry point registry x hostile reply scripts) biased to extreme values in every length / count / size / index position (boundary integers in either byte order, huge decimal numbers in text protocols, padding to 64 KiB), run under a counting global allocator that counts only client-side allocations (not the simulator's); oracle: peak live bytes <= 64 MiB, largest single request <= 16 MiB, a request above 256 MiB is not served (the worker aborts and the parent attributes it), sends <= (retries+1) x K + datagrams received; non-trivial = a reply was received; distinct = distinct event-log hash".to_string()
+        "the C01 generator (entry point registry x hostile reply scripts; every third case a damaged recorded conversation of a reference-model server, including bzip2-compressed split replies) biased to extreme values in every length / count / size / index position (boundary integers in either byte order, huge decimal numbers in text protocols, padding to 64 KiB), run under a counting global allocator that counts only client-side allocations (not the simulator's); oracle: peak live bytes <= 64 MiB, largest single request <= 16 MiB, a request above 256 MiB is not served (the worker aborts and the parent attributes it), sends <= (retries+1) x K + datagrams received; non-trivial = a reply was received; distinct = distinct event-log hash".to_string()
     }
 
     fn assumptions(&self) -> Vec<String> {
